@@ -32,7 +32,7 @@ ASSUMPTIONS = [
 FLOORS = {"quick": {"valid_v2s": 1500, "valid_s2v": 1200, "h_nontrivial": 200, "two_viewers": 100,
                     "fault:frag": 20, "fault:rsv": 20, "fault:atyp": 20, "fault:short": 20, "fault:unknown_host": 20,
                     "fault:no_circuit": 20, "fault:presession": 20, "fault:banned_in": 20, "fault:truncated": 20,
-                    "fault:bitflip": 8, "fault:unknown_msgnum": 20, "fault:sim_first": 20, "fault:nonsocks": 20,
+                    "fault:bitflip": 8, "fault:unknown_msgnum": 10, "fault:foreign_ucc": 10, "fault:sim_first": 20, "fault:nonsocks": 20,
                     "fault:atyp3": 20, "fault:unregistered": 20}}
 MANIFEST = {
     "text": "Generated multi-session datagram histories with interleaved faults through the real proxy protocol stack; every "
@@ -114,6 +114,7 @@ class Run:
         self.fault_between = False
         self.fault_seen_after_valid = False
         self.nontrivial = False
+        self.dead = [False] * hist["viewers"]
 
     def next_pid(self, v, r, d):
         k = (v, r, d)
@@ -172,7 +173,28 @@ class Run:
         w = self.world
         k = ev[0]
         out = []
-        if k == "ucc":
+        vi = ev[2] if k == "fault" else ev[1]
+        if self.dead[vi]:
+            return None
+        if k == "disconnect":
+            # this viewer's SOCKS control connection ends: its association and session go, nobody else's
+            _, v = ev
+            if sum(1 for d in self.dead if not d) < 2:
+                return None
+            w.disconnect(v)
+            self.dead[v] = True
+            self.classes.append("viewer_disconnected")
+            vw = w.viewers[v]
+            if not vw["sock"].closed:
+                out.append(("disconnect:association-left-open", "association %d still open after its control connection ended" % v))
+            for u, uw in enumerate(w.viewers):
+                if self.dead[u]:
+                    continue
+                if uw["sock"].closed or uw["proto"].session is not (uw["session"] if self.claimed[u] else None) or \
+                        (self.claimed[u] and uw["session"] not in w.sm.sessions):
+                    out.append(("disconnect:other-viewer-torn-down", "viewer %d disconnected and association %d lost its socket or session" % (v, u)))
+            self._fault()
+        elif k == "ucc":
             _, v, r = ev
             case = ucc_case(w, v, self.next_pid(v, r, "out"))
             sent, exc = w.from_viewer(v, self.region_addr(v, r), ref_datagram(case))
@@ -275,6 +297,18 @@ class Run:
             other = ("10.9.%d.9" % (p % 200), 14000 + p % 50)
             sent, exc = w.from_viewer(v, other, payload)
             self.learned.add((v, other))
+        elif kind == "foreign_ucc":
+            # a host the viewer has merely sent something to answers with a UseCircuitCode naming a pending session
+            other = ("10.8.%d.8" % (p % 200), 15000 + p % 50)
+            w.from_viewer(v, other, payload)
+            self.learned.add((v, other))
+            u = (v + p) % len(w.viewers)
+            bound_before = [vw["proto"].session for vw in w.viewers]
+            pending_before = [vw["session"].pending for vw in w.viewers]
+            sent, exc = w.from_sim(v, other, ref_datagram(ucc_case(w, u, 777000 + p)))
+            if [vw["proto"].session for vw in w.viewers] != bound_before or [vw["session"].pending for vw in w.viewers] != pending_before:
+                return [("fault-disturbed-state:foreign_ucc", "an inbound UseCircuitCode from an unrelated host on association %d changed which "
+                         "session is claimed (pending %r -> %r)" % (v, pending_before, [vw["session"].pending for vw in w.viewers]))]
         elif kind == "banned_in":
             if (v, addr) not in self.learned or not self.open.get((v, r)):
                 self.classes.pop()
@@ -339,6 +373,8 @@ class Run:
         w = self.world
         for v, vw in enumerate(w.viewers):
             s = vw["session"]
+            if self.dead[v]:
+                continue
             if s.pending != (not self.claimed[v]):
                 out.append(("state:pending", "session %d pending=%s but claimed=%s" % (v, s.pending, self.claimed[v])))
             if len(s.regions) != self.hist["regions"]:
@@ -394,12 +430,14 @@ def _events(nv, nr):
     v2s_case = gt.message_case(names=V2S_NAMES, **small)
     s2v_case = gt.message_case(names=S2V_NAMES, **small)
     banned_case = gt.message_case(names=BANNED_NAMES, **small)
-    kinds = ["frag", "rsv", "atyp", "atyp3", "short", "nonsocks", "unknown_host", "unregistered", "truncated", "bitflip", "unknown_msgnum"]
+    kinds = ["frag", "rsv", "atyp", "atyp3", "short", "nonsocks", "unknown_host", "unregistered", "truncated", "bitflip", "unknown_msgnum",
+             "foreign_ucc"]
     return st.one_of(
         st.tuples(st.just("ucc"), vs, rs),
         st.tuples(st.just("v2s"), vs, rs, v2s_case), st.tuples(st.just("v2s"), vs, rs, v2s_case),
         st.tuples(st.just("s2v"), vs, rs, s2v_case), st.tuples(st.just("s2v"), vs, rs, s2v_case),
         st.tuples(st.just("close"), vs, rs, st.booleans()),
+        st.tuples(st.just("disconnect"), vs),
         st.tuples(st.just("fault"), st.sampled_from(kinds), vs, rs, v2s_case, st.integers(0, 10000)),
         st.tuples(st.just("fault"), st.just("banned_in"), vs, rs, banned_case, st.integers(0, 10000)),
     )
@@ -412,6 +450,10 @@ def histories(draw, maxlen):
     deferred = draw(st.booleans())
     evs = draw(st.lists(_events(nv, nr), min_size=2, max_size=maxlen))
     lead = []
+    if draw(st.integers(0, 9)) == 0:
+        # before anybody has logged in on this association
+        lead.append(("fault", "foreign_ucc", draw(st.integers(0, nv - 1)), 0, draw(gt.message_case(names=V2S_NAMES, allow_str=False, omit_trailing=True)),
+                     draw(st.integers(0, 10000))))
     if draw(st.integers(0, 9)) < 8:
         lead.append(("ucc", 0, 0))
         if draw(st.booleans()):
@@ -421,7 +463,7 @@ def histories(draw, maxlen):
 
 def shards(tier):
     th = tier == "thorough"
-    sh = [{"kind": "hist", "n": 1300 if th else 120, "maxlen": 60 if th else 25} for _ in range(16)]
+    sh = [{"kind": "hist", "n": 1300 if th else 170, "maxlen": 60 if th else 25} for _ in range(16)]
     sh.append({"kind": "chat_grid"})
     names = gt.ALL_NAMES
     per = 31 if th else 121
